@@ -307,5 +307,5 @@ func TestC14_Concurrent(t *testing.T) {
 	rec.Label(fmt.Sprintf("span_cache_enabled_%v", span), 1)
 	thrift.SetSpanCache(span)
 	defer thrift.SetSpanCache(false)
-	runRapid(t, rec, "c14_concurrent", evid.Pick(150, 300), genConcCase, checkConcurrent)
+	runRapid(t, rec, "c14_concurrent", evid.Pick(150, 600), genConcCase, checkConcurrent)
 }
